@@ -1,6 +1,70 @@
 #![allow(unused, non_snake_case, non_upper_case_globals)]
 use vstd::prelude::*;
 verus! {
+// ---- include lib/stdspecs.vrs ----
+// Specifications of core integer methods that vstd 0.2026.09.13 does not provide (trusted; each mirrors the std documentation).
+// Included by every unit so that an edited body that starts using one of them is still decided.
+pub assume_specification[ i8::div_euclid ](x: i8, y: i8) -> (r: i8) requires y != 0, !(x == i8::MIN && y == -1), ensures y > 0 ==> r as int == (x as int) / (y as int);
+pub assume_specification[ i8::rem_euclid ](x: i8, y: i8) -> (r: i8) requires y != 0, !(x == i8::MIN && y == -1), ensures y > 0 ==> r as int == (x as int) % (y as int), y < 0 ==> r as int == (x as int) % (-(y as int));
+pub assume_specification[ i8::abs ](x: i8) -> (r: i8) requires x != i8::MIN, ensures r as int == (if x < 0 { -(x as int) } else { x as int });
+pub assume_specification[ i8::signum ](x: i8) -> (r: i8) ensures r == (if x > 0 { 1int } else if x < 0 { -1int } else { 0int });
+pub assume_specification[ i8::is_positive ](x: i8) -> (r: bool) ensures r == (x > 0);
+pub assume_specification[ i8::is_negative ](x: i8) -> (r: bool) ensures r == (x < 0);
+pub assume_specification[ i8::checked_neg ](x: i8) -> (r: Option<i8>) ensures x == i8::MIN ==> r.is_none(), x != i8::MIN ==> r == Some((-x) as i8);
+pub assume_specification[ i8::saturating_add ](x: i8, y: i8) -> (r: i8) ensures i8::MIN <= x + y <= i8::MAX ==> r == x + y, x + y > i8::MAX ==> r == i8::MAX, x + y < i8::MIN ==> r == i8::MIN;
+pub assume_specification[ i8::saturating_sub ](x: i8, y: i8) -> (r: i8) ensures i8::MIN <= x - y <= i8::MAX ==> r == x - y, x - y > i8::MAX ==> r == i8::MAX, x - y < i8::MIN ==> r == i8::MIN;
+pub assume_specification[ i8::saturating_neg ](x: i8) -> (r: i8) ensures x == i8::MIN ==> r == i8::MAX, x != i8::MIN ==> r == -x;
+pub assume_specification[ i8::unsigned_abs ](x: i8) -> (r: u8) ensures r as int == (if x < 0 { -(x as int) } else { x as int });
+pub assume_specification[ i8::checked_abs ](x: i8) -> (r: Option<i8>) ensures x == i8::MIN ==> r.is_none(), x != i8::MIN ==> r == Some((if x < 0 { -x } else { x as int }) as i8);
+pub assume_specification[ i16::div_euclid ](x: i16, y: i16) -> (r: i16) requires y != 0, !(x == i16::MIN && y == -1), ensures y > 0 ==> r as int == (x as int) / (y as int);
+pub assume_specification[ i16::rem_euclid ](x: i16, y: i16) -> (r: i16) requires y != 0, !(x == i16::MIN && y == -1), ensures y > 0 ==> r as int == (x as int) % (y as int), y < 0 ==> r as int == (x as int) % (-(y as int));
+pub assume_specification[ i16::abs ](x: i16) -> (r: i16) requires x != i16::MIN, ensures r as int == (if x < 0 { -(x as int) } else { x as int });
+pub assume_specification[ i16::signum ](x: i16) -> (r: i16) ensures r == (if x > 0 { 1int } else if x < 0 { -1int } else { 0int });
+pub assume_specification[ i16::is_positive ](x: i16) -> (r: bool) ensures r == (x > 0);
+pub assume_specification[ i16::is_negative ](x: i16) -> (r: bool) ensures r == (x < 0);
+pub assume_specification[ i16::checked_neg ](x: i16) -> (r: Option<i16>) ensures x == i16::MIN ==> r.is_none(), x != i16::MIN ==> r == Some((-x) as i16);
+pub assume_specification[ i16::saturating_add ](x: i16, y: i16) -> (r: i16) ensures i16::MIN <= x + y <= i16::MAX ==> r == x + y, x + y > i16::MAX ==> r == i16::MAX, x + y < i16::MIN ==> r == i16::MIN;
+pub assume_specification[ i16::saturating_sub ](x: i16, y: i16) -> (r: i16) ensures i16::MIN <= x - y <= i16::MAX ==> r == x - y, x - y > i16::MAX ==> r == i16::MAX, x - y < i16::MIN ==> r == i16::MIN;
+pub assume_specification[ i16::saturating_neg ](x: i16) -> (r: i16) ensures x == i16::MIN ==> r == i16::MAX, x != i16::MIN ==> r == -x;
+pub assume_specification[ i16::unsigned_abs ](x: i16) -> (r: u16) ensures r as int == (if x < 0 { -(x as int) } else { x as int });
+pub assume_specification[ i16::checked_abs ](x: i16) -> (r: Option<i16>) ensures x == i16::MIN ==> r.is_none(), x != i16::MIN ==> r == Some((if x < 0 { -x } else { x as int }) as i16);
+pub assume_specification[ i32::div_euclid ](x: i32, y: i32) -> (r: i32) requires y != 0, !(x == i32::MIN && y == -1), ensures y > 0 ==> r as int == (x as int) / (y as int);
+pub assume_specification[ i32::rem_euclid ](x: i32, y: i32) -> (r: i32) requires y != 0, !(x == i32::MIN && y == -1), ensures y > 0 ==> r as int == (x as int) % (y as int), y < 0 ==> r as int == (x as int) % (-(y as int));
+pub assume_specification[ i32::abs ](x: i32) -> (r: i32) requires x != i32::MIN, ensures r as int == (if x < 0 { -(x as int) } else { x as int });
+pub assume_specification[ i32::signum ](x: i32) -> (r: i32) ensures r == (if x > 0 { 1int } else if x < 0 { -1int } else { 0int });
+pub assume_specification[ i32::is_positive ](x: i32) -> (r: bool) ensures r == (x > 0);
+pub assume_specification[ i32::is_negative ](x: i32) -> (r: bool) ensures r == (x < 0);
+pub assume_specification[ i32::checked_neg ](x: i32) -> (r: Option<i32>) ensures x == i32::MIN ==> r.is_none(), x != i32::MIN ==> r == Some((-x) as i32);
+pub assume_specification[ i32::saturating_add ](x: i32, y: i32) -> (r: i32) ensures i32::MIN <= x + y <= i32::MAX ==> r == x + y, x + y > i32::MAX ==> r == i32::MAX, x + y < i32::MIN ==> r == i32::MIN;
+pub assume_specification[ i32::saturating_sub ](x: i32, y: i32) -> (r: i32) ensures i32::MIN <= x - y <= i32::MAX ==> r == x - y, x - y > i32::MAX ==> r == i32::MAX, x - y < i32::MIN ==> r == i32::MIN;
+pub assume_specification[ i32::saturating_neg ](x: i32) -> (r: i32) ensures x == i32::MIN ==> r == i32::MAX, x != i32::MIN ==> r == -x;
+pub assume_specification[ i32::unsigned_abs ](x: i32) -> (r: u32) ensures r as int == (if x < 0 { -(x as int) } else { x as int });
+pub assume_specification[ i32::checked_abs ](x: i32) -> (r: Option<i32>) ensures x == i32::MIN ==> r.is_none(), x != i32::MIN ==> r == Some((if x < 0 { -x } else { x as int }) as i32);
+pub assume_specification[ i64::div_euclid ](x: i64, y: i64) -> (r: i64) requires y != 0, !(x == i64::MIN && y == -1), ensures y > 0 ==> r as int == (x as int) / (y as int);
+pub assume_specification[ i64::rem_euclid ](x: i64, y: i64) -> (r: i64) requires y != 0, !(x == i64::MIN && y == -1), ensures y > 0 ==> r as int == (x as int) % (y as int), y < 0 ==> r as int == (x as int) % (-(y as int));
+pub assume_specification[ i64::abs ](x: i64) -> (r: i64) requires x != i64::MIN, ensures r as int == (if x < 0 { -(x as int) } else { x as int });
+pub assume_specification[ i64::signum ](x: i64) -> (r: i64) ensures r == (if x > 0 { 1int } else if x < 0 { -1int } else { 0int });
+pub assume_specification[ i64::is_positive ](x: i64) -> (r: bool) ensures r == (x > 0);
+pub assume_specification[ i64::is_negative ](x: i64) -> (r: bool) ensures r == (x < 0);
+pub assume_specification[ i64::checked_neg ](x: i64) -> (r: Option<i64>) ensures x == i64::MIN ==> r.is_none(), x != i64::MIN ==> r == Some((-x) as i64);
+pub assume_specification[ i64::saturating_add ](x: i64, y: i64) -> (r: i64) ensures i64::MIN <= x + y <= i64::MAX ==> r == x + y, x + y > i64::MAX ==> r == i64::MAX, x + y < i64::MIN ==> r == i64::MIN;
+pub assume_specification[ i64::saturating_sub ](x: i64, y: i64) -> (r: i64) ensures i64::MIN <= x - y <= i64::MAX ==> r == x - y, x - y > i64::MAX ==> r == i64::MAX, x - y < i64::MIN ==> r == i64::MIN;
+pub assume_specification[ i64::saturating_neg ](x: i64) -> (r: i64) ensures x == i64::MIN ==> r == i64::MAX, x != i64::MIN ==> r == -x;
+pub assume_specification[ i64::unsigned_abs ](x: i64) -> (r: u64) ensures r as int == (if x < 0 { -(x as int) } else { x as int });
+pub assume_specification[ i64::checked_abs ](x: i64) -> (r: Option<i64>) ensures x == i64::MIN ==> r.is_none(), x != i64::MIN ==> r == Some((if x < 0 { -x } else { x as int }) as i64);
+pub assume_specification[ i128::div_euclid ](x: i128, y: i128) -> (r: i128) requires y != 0, !(x == i128::MIN && y == -1), ensures y > 0 ==> r as int == (x as int) / (y as int);
+pub assume_specification[ i128::rem_euclid ](x: i128, y: i128) -> (r: i128) requires y != 0, !(x == i128::MIN && y == -1), ensures y > 0 ==> r as int == (x as int) % (y as int), y < 0 ==> r as int == (x as int) % (-(y as int));
+pub assume_specification[ i128::abs ](x: i128) -> (r: i128) requires x != i128::MIN, ensures r as int == (if x < 0 { -(x as int) } else { x as int });
+pub assume_specification[ i128::signum ](x: i128) -> (r: i128) ensures r == (if x > 0 { 1int } else if x < 0 { -1int } else { 0int });
+pub assume_specification[ i128::is_positive ](x: i128) -> (r: bool) ensures r == (x > 0);
+pub assume_specification[ i128::is_negative ](x: i128) -> (r: bool) ensures r == (x < 0);
+pub assume_specification[ i128::checked_neg ](x: i128) -> (r: Option<i128>) ensures x == i128::MIN ==> r.is_none(), x != i128::MIN ==> r == Some((-x) as i128);
+pub assume_specification[ i128::saturating_add ](x: i128, y: i128) -> (r: i128) ensures i128::MIN <= x + y <= i128::MAX ==> r == x + y, x + y > i128::MAX ==> r == i128::MAX, x + y < i128::MIN ==> r == i128::MIN;
+pub assume_specification[ i128::saturating_sub ](x: i128, y: i128) -> (r: i128) ensures i128::MIN <= x - y <= i128::MAX ==> r == x - y, x - y > i128::MAX ==> r == i128::MAX, x - y < i128::MIN ==> r == i128::MIN;
+pub assume_specification[ i128::saturating_neg ](x: i128) -> (r: i128) ensures x == i128::MIN ==> r == i128::MAX, x != i128::MIN ==> r == -x;
+pub assume_specification[ i128::unsigned_abs ](x: i128) -> (r: u128) ensures r as int == (if x < 0 { -(x as int) } else { x as int });
+pub assume_specification[ i128::checked_abs ](x: i128) -> (r: Option<i128>) ensures x == i128::MIN ==> r.is_none(), x != i128::MIN ==> r == Some((if x < 0 { -x } else { x as int }) as i128);
+
 // ---- include lib/rangeint.vrs ----
 // GENERATED by lib/gen_rangeint.py -- the rangeint model (T2).  Do not edit by hand.
 use vstd::std_specs::cmp::*;
@@ -6460,6 +6524,180 @@ pub proof fn lemma_wd()
     ensures wd(0) == 4, forall|e: int| #[trigger] wd(e + 1) == (if wd(e) == 7 { 1int } else { wd(e) + 1 }),
 {}
 
+// ---- lemmas over plain integers used by the units (moved here from itime_views.vrs so that units without the itime structs can include them)
+pub open spec fn nth_first_day(y: int, m: int, w: int) -> int { 1 + (w - wd(rd(y, m, 1))) % 7 }
+pub open spec fn nth_last_day(y: int, m: int, w: int) -> int { dim(y, m) - (wd(rd(y, m, dim(y, m))) - w) % 7 }
+/// x == 7*q + r with 0 <= r < 7 determines x % 7
+#[verifier::spinoff_prover]
+pub proof fn lemma_mod7(x: int, q: int, r: int)
+    requires x == 7 * q + r, 0 <= r < 7,
+    ensures x % 7 == r,
+{
+    assert(x == q * 7 + r);
+    vstd::arithmetic::div_mod::lemma_fundamental_div_mod_converse(x, 7, q, r);
+}
+#[verifier::spinoff_prover]
+pub proof fn lemma_wd_arith(e: int, w: int, k: int)
+    requires 1 <= w <= 7,
+    ensures wd(e + (w - wd(e)) % 7 + 7 * k) == w, wd(e - (wd(e) - w) % 7 - 7 * k) == w,
+            0 <= (w - wd(e)) % 7 <= 6, 0 <= (wd(e) - w) % 7 <= 6,
+{
+    let a = (e + 3) % 7; let q = (e + 3) / 7;
+    vstd::arithmetic::div_mod::lemma_fundamental_div_mod(e + 3, 7);
+    vstd::arithmetic::div_mod::lemma_mod_bound(e + 3, 7);
+    assert(e + 3 == 7 * q + a && 0 <= a < 7 && wd(e) == a + 1);
+    // forward
+    let x1 = w - wd(e); let t1 = x1 % 7; let p1 = x1 / 7;
+    vstd::arithmetic::div_mod::lemma_fundamental_div_mod(x1, 7);
+    vstd::arithmetic::div_mod::lemma_mod_bound(x1, 7);
+    assert(x1 == 7 * p1 + t1 && 0 <= t1 < 7);
+    lemma_mod7(e + t1 + 7 * k + 3, q + k - p1, w - 1);
+    // backward
+    let x2 = wd(e) - w; let t2 = x2 % 7; let p2 = x2 / 7;
+    vstd::arithmetic::div_mod::lemma_fundamental_div_mod(x2, 7);
+    vstd::arithmetic::div_mod::lemma_mod_bound(x2, 7);
+    assert(x2 == 7 * p2 + t2 && 0 <= t2 < 7);
+    lemma_mod7(e - t2 - 7 * k + 3, q - k + p2, w - 1);
+}
+#[verifier::spinoff_prover]
+pub proof fn lemma_nth_day(y: int, m: int, w: int, k: int)
+    requires 1 <= m <= 12, 1 <= w <= 7,
+    ensures 1 <= nth_first_day(y, m, w) <= 7, wd(rd(y, m, nth_first_day(y, m, w) + 7 * k)) == w,
+            0 <= dim(y, m) - nth_last_day(y, m, w) <= 6, wd(rd(y, m, nth_last_day(y, m, w) - 7 * k)) == w,
+{
+    let e1 = rd(y, m, 1);
+    let e2 = rd(y, m, dim(y, m));
+    lemma_wd_arith(e1, w, k);
+    lemma_wd_arith(e2, w, k);
+    assert(rd(y, m, nth_first_day(y, m, w) + 7 * k) == e1 + (w - wd(e1)) % 7 + 7 * k);
+    assert(rd(y, m, nth_last_day(y, m, w) - 7 * k) == e2 - (wd(e2) - w) % 7 - 7 * k);
+}
+#[verifier::spinoff_prover]
+pub proof fn lemma_rd_bounds(y: int, m: int, d: int)
+    requires in_range_ymd(y, m, d),
+    ensures -4371587 <= rd(y, m, d) <= 2932896,
+            (rd(y, m, d) == -4371587 <==> (y == -9999 && m == 1 && d == 1)),
+            (rd(y, m, d) == 2932896 <==> (y == 9999 && m == 12 && d == 31)),
+{
+    lemma_rd_epoch();
+    if !(y == -9999 && m == 1 && d == 1) { lemma_rd_mono(-9999, 1, 1, y, m, d); }
+    if !(y == 9999 && m == 12 && d == 31) { lemma_rd_mono(y, m, d, 9999, 12, 31); }
+}
+#[verifier::spinoff_prover]
+pub proof fn lemma_year_of_rd(y: int, m: int, d: int)
+    requires valid_ymd(y, m, d),
+    ensures rd(y, 1, 1) <= rd(y, m, d) < rd(y + 1, 1, 1),
+{
+    lemma_doy_rd(y, m, d); lemma_rd_year(y);
+    lemma_dbm(y, m);
+}
+
+#[verifier::rlimit(200)]
+#[verifier::spinoff_prover]
+pub proof fn lemma_mulshift(k: u64)
+    requires k <= 36524,
+    ensures ({ let n = 4 * k + 3; (2939745 * n) / 4294967296 == n / 1461 }),
+            ({ let n = 4 * k + 3; ((2939745 * n) % 4294967296) / 2939745 / 4 == (n % 1461) / 4 }),
+{
+    assert(k <= 36524 ==> ({ let n = (4 * k + 3) as u64; (2939745 * n) / 4294967296 == n / 1461 })) by (bit_vector);
+    assert(k <= 36524 ==> ({ let n = (4 * k + 3) as u64; ((2939745 * n) % 4294967296) / 2939745 / 4 == (n % 1461) / 4 })) by (bit_vector);
+}
+#[verifier::spinoff_prover]
+pub proof fn lemma_month(ny: u32)
+    requires ny < 366,
+    ensures ({
+        let n3 = 2141 * ny + 197913;
+        let m = n3 / 65536;
+        let d = (n3 % 65536) / 2141;
+        3 <= m <= 14 && d <= 30 && ny as int == (153 * (m as int - 3) + 2) / 5 + d as int
+        && (m == 14 ==> d <= 28) && ((m == 4 || m == 6 || m == 9 || m == 11) ==> d <= 29)
+        && (ny >= 306 <==> m >= 13) && (m == 14 && d == 28 ==> ny == 365)
+    }),
+{
+    assert(ny < 366 ==> ({
+        let n3 = (2141 * ny + 197913) as u32;
+        let m = n3 / 65536;
+        let d = (n3 % 65536) / 2141;
+        3 <= m && m <= 14 && d <= 30 && ny == (153 * (m - 3) + 2) / 5 + d
+        && (m == 14 ==> d <= 28) && ((m == 4 || m == 6 || m == 9 || m == 11) ==> d <= 29)
+        && (ny >= 306 <==> m >= 13) && (m == 14 && d == 28 ==> ny == 365)
+    })) by (bit_vector);
+}
+// q = (4n+3)/P, r = ((4n+3)%P)/4 with P = 4p+1  ==> n == p*q + q/4 + r, and (r == p ==> q%4 == 3)
+#[verifier::spinoff_prover]
+pub proof fn lemma_cycle(n: int, p: int)
+    requires n >= 0, p > 0,
+    ensures ({
+        let big = 4 * p + 1;
+        let q = (4 * n + 3) / big;
+        let r = ((4 * n + 3) % big) / 4;
+        n == p * q + q / 4 + r && 0 <= r <= p && (r == p ==> q % 4 == 3)
+    }),
+{
+    let big = 4 * p + 1;
+    let n1 = 4 * n + 3;
+    let q = n1 / big;
+    let r1 = n1 % big;
+    let r = r1 / 4;
+    assert(n1 == big * q + r1) by { vstd::arithmetic::div_mod::lemma_fundamental_div_mod(n1, big); }
+    assert(0 <= r1 < big) by { vstd::arithmetic::div_mod::lemma_mod_bound(n1, big); }
+    let a = q / 4; let b = q % 4;
+    let t = r1 % 4;
+    assert(q == 4 * a + b);
+    assert(r1 == 4 * r + t);
+    assert(big * q == 4 * p * q + q) by (nonlinear_arith) requires big == 4 * p + 1;
+    assert(4 * n + 3 == 4 * (p * q) + 4 * a + b + 4 * r + t) by (nonlinear_arith)
+        requires n1 == big * q + r1, big * q == 4 * p * q + q, q == 4 * a + b, r1 == 4 * r + t, n1 == 4 * n + 3;
+    assert(b + t == 3);
+}
+
+/// the arithmetic heart of Neri-Schneider's to_date, over plain integers
+#[verifier::spinoff_prover]
+pub proof fn lemma_ns_final(e: int, c: int, z: int, ny: int, mm: int, dd: int)
+    requires
+        -4371587 <= e <= 2932896,
+        228 <= c <= 428, 0 <= z <= 99, 0 <= ny <= 365,
+        e + 12699422 == 36524 * c + c / 4 + (365 * z + z / 4 + ny),
+        3 <= mm <= 14, 0 <= dd <= 30,
+        ny == moff(mm) + dd,
+        mm == 14 ==> dd <= 28, (mm == 4 || mm == 6 || mm == 9 || mm == 11) ==> dd <= 29,
+        (ny >= 306) <==> (mm >= 13),
+        mm == 14 && dd == 28 ==> ny == 365,
+        // ny == 365 only in the last year of a 4-year cycle, and the 4-year cycle's 1461st day only in the last of a 400-year cycle
+        ny == 365 ==> z % 4 == 3,
+        (365 * z + z / 4 + ny) == 36524 ==> c % 4 == 3,
+    ensures ({
+        let yy = 100 * c + z - 32800;
+        let j = if ny >= 306 { 1int } else { 0int };
+        let year = yy + j;
+        let month = if ny >= 306 { mm - 12 } else { mm };
+        let day = dd + 1;
+        -9999 <= year <= 9999 && valid_ymd(year, month, day) && rd(year, month, day) == e
+    }),
+{
+    let yy = 100 * c + z - 32800;
+    let j = if ny >= 306 { 1int } else { 0int };
+    let year = yy + j;
+    let month = if ny >= 306 { mm - 12 } else { mm };
+    let day = dd + 1;
+    let big = 100 * c + z;
+    assert(big / 4 == 25 * c + z / 4);
+    assert(big / 100 == c);
+    assert(big / 400 == c / 4);
+    assert(yy / 4 == big / 4 - 8200);
+    assert(yy / 100 == big / 100 - 328);
+    assert(yy / 400 == big / 400 - 82);
+    lemma_rd_lin(year, month, day);
+    // leap status of the March-based year yy+1 decides whether Feb 29 (mm == 14, dd == 28) exists
+    if mm == 14 && dd == 28 {
+        let y1 = yy + 1;
+        assert(z % 4 == 3);
+        assert(y1 % 4 == 0);
+        if z == 99 { assert((365 * z + z / 4 + ny) == 36524); assert(c % 4 == 3); assert(y1 % 400 == 0); }
+        else { assert(y1 % 100 != 0); }
+    }
+}
+
 // constants of src/util/t.rs
 pub const MONTHS_PER_YEAR: Constant = Constant(12);
 pub const NANOS_PER_MICRO: Constant = Constant(1_000);
@@ -6478,23 +6716,6 @@ impl<T> VerifCtx for Result<T, Error> {
 }
 
 // ---- lemmas of lib/itime_views.vrs that do not mention the itime structs (copied: that file cannot be included without IDate)
-#[verifier::spinoff_prover]
-pub proof fn lemma_wd_arith(e: int, w: int, k: int)
-    requires 1 <= w <= 7,
-    ensures wd(e + (w - wd(e)) % 7 + 7 * k) == w, wd(e - (wd(e) - w) % 7 - 7 * k) == w,
-            0 <= (w - wd(e)) % 7 <= 6, 0 <= (wd(e) - w) % 7 <= 6,
-{}
-#[verifier::spinoff_prover]
-pub proof fn lemma_rd_bounds(y: int, m: int, d: int)
-    requires in_range_ymd(y, m, d),
-    ensures -4371587 <= rd(y, m, d) <= 2932896,
-            (rd(y, m, d) == -4371587 <==> (y == -9999 && m == 1 && d == 1)),
-            (rd(y, m, d) == 2932896 <==> (y == 9999 && m == 12 && d == 31)),
-{
-    lemma_rd_epoch();
-    if !(y == -9999 && m == 1 && d == 1) { lemma_rd_mono(-9999, 1, 1, y, m, d); }
-    if !(y == 9999 && m == 12 && d == 31) { lemma_rd_mono(y, m, d, 9999, 12, 31); }
-}
 
 // ---- opaque callees (contracts proved elsewhere: itime.vrs / Kani c01_civil) ----
 pub mod itime {
@@ -6724,6 +6945,19 @@ pub proof fn lemma_span_carries(s: Span, m: int)
     }),
 {
 }
+/// weekday of the neighbouring day numbers
+#[verifier::spinoff_prover]
+pub proof fn lemma_wd_step(e: int)
+    ensures 1 <= wd(e) <= 7,
+            wd(e + 1) == (if wd(e) == 7 { 1int } else { wd(e) + 1 }), wd(e - 1) == (if wd(e) == 1 { 7int } else { wd(e) - 1 }),
+{
+    let a = (e + 3) % 7; let q = (e + 3) / 7;
+    vstd::arithmetic::div_mod::lemma_fundamental_div_mod(e + 3, 7);
+    vstd::arithmetic::div_mod::lemma_mod_bound(e + 3, 7);
+    assert(e + 3 == 7 * q + a && 0 <= a < 7);
+    if a == 6 { lemma_mod7(e + 1 + 3, q + 1, 0); } else { lemma_mod7(e + 1 + 3, q, a + 1); }
+    if a == 0 { lemma_mod7(e - 1 + 3, q - 1, 6); } else { lemma_mod7(e - 1 + 3, q, a - 1); }
+}
 #[verifier::spinoff_prover]
 pub proof fn lemma_nth(e: int, n: int, w: int)
     requires 1 <= w <= 7, n != 0,
@@ -6731,7 +6965,13 @@ pub proof fn lemma_nth(e: int, n: int, w: int)
             wd(e + 1) == (if wd(e) == 7 { 1int } else { wd(e) + 1 }), wd(e - 1) == (if wd(e) == 1 { 7int } else { wd(e) - 1 }),
             0 <= (w - wd(e + 1)) % 7 <= 6, 0 <= (wd(e - 1) - w) % 7 <= 6,
 {
+    lemma_wd_step(e);
     lemma_wd_arith(e + 1, w, n - 1); lemma_wd_arith(e - 1, w, -n - 1);
+    if n > 0 {
+        assert(nth_weekday_rd(e, n, w) == (e + 1) + (w - wd(e + 1)) % 7 + 7 * (n - 1));
+    } else {
+        assert(nth_weekday_rd(e, n, w) == (e - 1) - (wd(e - 1) - w) % 7 - 7 * (-n - 1));
+    }
 }
 #[verifier::spinoff_prover]
 pub proof fn lemma_tdiv_chain(s: int)
@@ -6828,7 +7068,7 @@ pub struct Date {
 }
 
 impl PartialEq for Date {
-// @fn <Date as PartialEq>::eq @src src/civil/date.rs:2226
+// @fn <Date as PartialEq>::eq @src src/civil/date.rs:2227
 
     fn eq(&self, other: &Date) -> bool
 {
@@ -6842,7 +7082,8 @@ impl PartialEq for Date {
 }
 
 impl Date {
-// @fn Date::new_ranged_unchecked @src src/civil/date.rs:2124
+// @fn Date::new_ranged_unchecked @src src/civil/date.rs:2125
+#[verifier::spinoff_prover]
 
     pub fn new_ranged_unchecked(
         year: Year,
@@ -6857,7 +7098,8 @@ impl Date {
 }
 
 impl Date {
-// @fn Date::year_ranged @src src/civil/date.rs:2141
+// @fn Date::year_ranged @src src/civil/date.rs:2142
+#[verifier::spinoff_prover]
 
     pub fn verif_try_checked_add_year_ranged<R: RInto<Year>>(x: Year, rhs: R) -> (res: Result<Year, Error>) requires rhs.rinto_req() ensures res.is_ok() <==> in_Year(x.val + rhs.rinto_spec().val), res.is_ok() ==> res.unwrap().val == x.val + rhs.rinto_spec().val { verif_try_checked_add_Year(x, rhs) } pub fn verif_try_checked_sub_year_ranged<R: RInto<Year>>(x: Year, rhs: R) -> (res: Result<Year, Error>) requires rhs.rinto_req() ensures res.is_ok() <==> in_Year(x.val - rhs.rinto_spec().val), res.is_ok() ==> res.unwrap().val == x.val - rhs.rinto_spec().val { verif_try_checked_sub_Year(x, rhs) } pub fn year_ranged(self) -> (r: Year)
     ensures
@@ -6868,7 +7110,8 @@ impl Date {
 }
 
 impl Date {
-// @fn Date::month_ranged @src src/civil/date.rs:2146
+// @fn Date::month_ranged @src src/civil/date.rs:2147
+#[verifier::spinoff_prover]
 
     pub fn month_ranged(self) -> (r: Month)
     ensures
@@ -6879,7 +7122,8 @@ impl Date {
 }
 
 impl Date {
-// @fn Date::day_ranged @src src/civil/date.rs:2151
+// @fn Date::day_ranged @src src/civil/date.rs:2152
+#[verifier::spinoff_prover]
 
     pub fn day_ranged(self) -> (r: Day)
     ensures
@@ -6890,7 +7134,8 @@ impl Date {
 }
 
 impl Date {
-// @fn Date::days_in_month_ranged @src src/civil/date.rs:2156
+// @fn Date::days_in_month_ranged @src src/civil/date.rs:2157
+#[verifier::spinoff_prover]
 
     pub fn days_in_month_ranged(self) -> (r: Day)
     requires
@@ -6904,6 +7149,7 @@ impl Date {
 
 impl Date {
 // @fn Date::month @src src/civil/date.rs:500
+#[verifier::spinoff_prover]
 
     pub fn month(self) -> (r: i8)
     ensures
@@ -6915,6 +7161,7 @@ impl Date {
 
 impl Date {
 // @fn Date::day @src src/civil/date.rs:517
+#[verifier::spinoff_prover]
 
     pub fn day(self) -> (r: i8)
     ensures
@@ -6933,7 +7180,8 @@ impl Date {
     }
 }
 
-// @fn saturate_day_in_month @src src/civil/date.rs:3657
+// @fn saturate_day_in_month @src src/civil/date.rs:3658
+#[verifier::spinoff_prover]
 
 pub fn saturate_day_in_month(year: Year, month: Month, day: Day) -> (r: Day)
     requires
@@ -6944,7 +7192,8 @@ pub fn saturate_day_in_month(year: Year, month: Month, day: Day) -> (r: Day)
     day.min(days_in_month(year, month))
 }
 
-// @fn month_add_overflowing @src src/civil/date.rs:3640
+// @fn month_add_overflowing @src src/civil/date.rs:3641
+#[verifier::spinoff_prover]
 pub fn month_add_overflowing(
     month: Month,
     span: SpanMonths,
@@ -6963,7 +7212,8 @@ pub fn month_add_overflowing(
     (month.rinto(), years.rinto())
 }
 
-// @fn month_add_one @src src/civil/date.rs:3616
+// @fn month_add_one @src src/civil/date.rs:3617
+#[verifier::spinoff_prover]
 pub fn month_add_one(
     year0: Year,
     month0: Month,
@@ -6991,7 +7241,8 @@ pub fn month_add_one(
 }
 
 impl Date {
-// @fn Date::constrain_ranged @src src/civil/date.rs:2133
+// @fn Date::constrain_ranged @src src/civil/date.rs:2134
+#[verifier::spinoff_prover]
 
     pub fn constrain_ranged(year: Year, month: Month, day: Day) -> (r: Date)
     requires
@@ -7008,6 +7259,7 @@ impl Date {
 
 impl Date {
 // @fn Date::tomorrow @src src/civil/date.rs:777
+#[verifier::spinoff_prover]
 
     pub fn tomorrow(self) -> (r: Result<Date, Error>)
     requires
@@ -7040,6 +7292,7 @@ impl Date {
 
 impl Date {
 // @fn Date::yesterday @src src/civil/date.rs:816
+#[verifier::spinoff_prover]
 
     pub fn yesterday(self) -> (r: Result<Date, Error>)
     requires
@@ -7071,7 +7324,8 @@ impl Date {
 }
 
 impl Date {
-// @fn Date::until_days_ranged @src src/civil/date.rs:2161
+// @fn Date::until_days_ranged @src src/civil/date.rs:2162
+#[verifier::spinoff_prover]
 
     pub fn until_days_ranged(self, other: Date) -> (r: SpanDays)
     requires
@@ -7159,6 +7413,7 @@ impl Date {
 
 impl Date {
 // @fn Date::checked_add_duration @src src/civil/date.rs:1508
+#[verifier::spinoff_prover]
 
     pub fn checked_add_duration(
         self,
@@ -7173,14 +7428,13 @@ impl Date {
         proof { lemma_tdiv_chain(duration.secs as int); lemma_rd_bounds(self.year.val as int, self.month.val as int, self.day.val as int); }
 
         
-        match duration.as_hours() / 24 {
+        match duration.as_hours().div_euclid(24) {
             0 => Ok(self),
             -1 => self.yesterday(),
             1 => self.tomorrow(),
             days => {
-                let days = verif_try_new_UnixEpochDay(days).verif_with_context()?;
-                let days =
-                    self.to_unix_epoch_day().verif_m_try_checked_add_UnixEpochDay( days)?;
+                let days = verif_try_new_SpanDays(days).verif_with_context()?;
+                let days = self.to_unix_epoch_day().verif_m_try_checked_add_UnixEpochDay( UnixEpochDay::rfrom(days))?;
                 Ok(Date::from_unix_epoch_day(days))
             }
         }
@@ -7232,7 +7486,8 @@ impl Date {
     }
 }
 
-// @fn days_in_month @src src/civil/date.rs:3666
+// @fn days_in_month @src src/civil/date.rs:3667
+#[verifier::spinoff_prover]
 
 pub fn days_in_month(year: Year, month: Month) -> (r: Day)
     requires
@@ -7246,6 +7501,7 @@ pub fn days_in_month(year: Year, month: Month) -> (r: Day)
 
 impl Time {
 // @fn Time::wrapping_add_span @src src/civil/time.rs:709
+#[verifier::spinoff_prover]
 
     pub fn wrapping_add_span(self, span: Span) -> (r: Time)
     requires
@@ -7304,6 +7560,7 @@ impl Time {
 
 impl Time {
 // @fn Time::wrapping_add_signed_duration @src src/civil/time.rs:742
+#[verifier::spinoff_prover]
 
     pub fn wrapping_add_signed_duration(self, duration: SignedDuration) -> (r: Time)
     requires
@@ -7320,6 +7577,7 @@ impl Time {
 
 impl Time {
 // @fn Time::wrapping_add_unsigned_duration @src src/civil/time.rs:750
+#[verifier::spinoff_prover]
 
     pub fn wrapping_add_unsigned_duration(
         self,
@@ -7342,6 +7600,7 @@ impl Time {
 
 impl Time {
 // @fn Time::wrapping_sub_unsigned_duration @src src/civil/time.rs:805
+#[verifier::spinoff_prover]
 
     pub fn wrapping_sub_unsigned_duration(
         self,
@@ -7363,6 +7622,7 @@ impl Time {
 
 impl Time {
 // @fn Time::checked_add_span @src src/civil/time.rs:940
+#[verifier::spinoff_prover]
 
     pub fn checked_add_span(self, span: Span) -> (r: Result<Time, Error>)
     requires
@@ -7381,6 +7641,7 @@ impl Time {
 
 impl Time {
 // @fn Time::checked_add_duration @src src/civil/time.rs:949
+#[verifier::spinoff_prover]
 
     pub fn checked_add_duration(
         self,
@@ -7407,6 +7668,7 @@ impl Time {
 
 impl Time {
 // @fn Time::overflowing_add @src src/civil/time.rs:1101
+#[verifier::spinoff_prover]
 
     pub fn overflowing_add(
         self,
@@ -7428,6 +7690,13 @@ impl Time {
         let span_nanos = span.to_invariant_nanoseconds();
         let time_nanos = self.to_nanosecond();
         let sum = span_nanos + time_nanos;
+        proof {
+            // the floor quotient by one civil day of a value within +-2^78 + one day fits an i64 by a wide margin
+            let v = sum.val as int;
+            assert(-0x4000_0000_0000_0000_0000 <= v <= 0x4000_0000_0000_0000_0000 + 86_400_000_000_000);
+            assert(-4_000_000_000 <= v / 86_400_000_000_000 <= 4_000_000_000);
+        }
+
         let days = verif_try_new_SpanDays(sum.div_floor(NANOS_PER_CIVIL_DAY).verif_into_i64())?;
         let time_nanos = sum.rem_floor(NANOS_PER_CIVIL_DAY);
         let time = Time::from_nanosecond(time_nanos.rinto());
@@ -7437,6 +7706,7 @@ impl Time {
 
 impl Time {
 // @fn Time::overflowing_add_duration @src src/civil/time.rs:1125
+#[verifier::spinoff_prover]
 
     pub fn overflowing_add_duration(
         self,
@@ -7473,6 +7743,7 @@ impl Time {
 
 impl Time {
 // @fn Time::overflowing_add_duration_general @src src/civil/time.rs:1157
+#[verifier::spinoff_prover]
 
     
     pub fn overflowing_add_duration_general(
@@ -7509,6 +7780,7 @@ impl Time {
 
 impl DateTime {
 // @fn DateTime::from_parts @src src/civil/datetime.rs:407
+#[verifier::spinoff_prover]
 
     pub const fn from_parts(date: Date, time: Time) -> (r: DateTime)
     ensures
@@ -7520,6 +7792,7 @@ impl DateTime {
 
 impl DateTime {
 // @fn DateTime::date @src src/civil/datetime.rs:1242
+#[verifier::spinoff_prover]
 
     pub fn date(self) -> (r: Date)
     ensures
@@ -7531,6 +7804,7 @@ impl DateTime {
 
 impl DateTime {
 // @fn DateTime::time @src src/civil/datetime.rs:1257
+#[verifier::spinoff_prover]
 
     pub fn time(self) -> (r: Time)
     ensures
